@@ -26,3 +26,7 @@ def run(ctx):
     from ..rules_misc import warning_filter_rule, error_carriers_rule
     ctx.guard(warning_filter_rule, ctx, "C03.warning-reaches-caller")
     ctx.guard(error_carriers_rule, ctx, "C03.error-carriers")
+    from ..rules_misc import assembly_layering_rule
+    ctx.guard(assembly_layering_rule, ctx, "C03.assembly-layering")
+    from ..rules_misc import identity_rule
+    ctx.guard(identity_rule, ctx, "C03.identity")
